@@ -96,7 +96,12 @@ def resolve_key(ctx: Ctx, c, name: str, pure: bool, depth: int = 0) -> set[str] 
 
 def eq_conjuncts(f) -> list[ast.expr] | None:
     """Conjuncts of the final `return a and b and ...` of __eq__ (after the isinstance / identity guards)."""
-    rets = [s for s in f.body if isinstance(s, ast.Return)]
+    from ..kit import own_nodes as _own
+
+    # the return that carries the comparison: `return NotImplemented` / `return False` / `return True` exits are guards,
+    # wherever they stand (isinstance test first or last)
+    rets = [s for s in _own(f.node) if isinstance(s, ast.Return) and s.value is not None
+            and not (isinstance(s.value, ast.Name) and s.value.id == "NotImplemented") and not (isinstance(s.value, ast.Constant) and isinstance(s.value.value, bool))]
     if len(rets) != 1:
         return None
     v = rets[0].value
